@@ -72,7 +72,9 @@ class ComplexModel(object):
         Xs = set(v[2] for v in self.rules.values() if v[0] in ('threshold', 'linear'))
         self.relevant_new = set(b for a, b in self.nextstatus.items() if a in Xs or b in Xs)
         inj = len(set(self.nextstatus.values())) == len(self.nextstatus)
-        self.lazy = bool(case.get('lazy_influence')) and inj
+        # a chooser that flips its own coin between two targets (e.g. I -> R or S): {status: second target}
+        self.alt = {k: v for k, v in (case.get('alt') or {}).items() if v != self.nextstatus.get(k)}
+        self.lazy = bool(case.get('lazy_influence')) and inj and not self.alt
         self.ret = list(case.get('ret') or self.statuses)
         self.calls = []
 
@@ -85,8 +87,13 @@ class ComplexModel(object):
         def rate_function(G, node, status, parameters):
             return rate_of(rules, adj, node, status, nodew)
 
+        alt = self.alt
+
         def transition_choice(G, node, status, parameters):
-            return nxt[status[node]]
+            s_ = status[node]
+            if s_ in alt:
+                return rng.choice([nxt[s_], alt[s_]])       # the user's own coin (drawn from the same forking source)
+            return nxt[s_]
 
         form = self.case.get('infl_form', 'list')
 
@@ -131,7 +138,11 @@ class ComplexModel(object):
         for u in self.nodes:
             r = rate_of(self.rules, self.adj, u, state, self.nodew)
             if r > 0:
-                ev[(u, self.nextstatus[state[u]], None)] = r
+                if state[u] in self.alt:
+                    ev[(u, self.nextstatus[state[u]], None)] = r / 2.0
+                    ev[(u, self.alt[state[u]], None)] = r / 2.0
+                else:
+                    ev[(u, self.nextstatus[state[u]], None)] = r
         return ev
 
     def apply(self, state, key):
@@ -149,7 +160,7 @@ def prop_tree(case, walk=None, max_depth=10, max_levels=1500):
     fails, stats = steplaw.explore(model, 'Gillespie_complex_contagion', walk=walk, max_depth=max_depth,
                                    max_levels=max_levels, observe=observe)
     kinds = sorted(set(v[0] for v in model.rules.values()))
-    classes = (['lazy-influence'] if model.lazy else []) + ['rule:' + k for k in kinds] + ['hops%d' % model.hops, 'influence-set-as-' + case.get('infl_form', 'list')] + (['tmax-inf'] if model.tmax == INF else ['tmax-finite'])
+    classes = (['lazy-influence'] if model.lazy else []) + (['chooser-flips-a-coin'] if model.alt else []) + ['rule:' + k for k in kinds] + ['hops%d' % model.hops, 'influence-set-as-' + case.get('infl_form', 'list')] + (['tmax-inf'] if model.tmax == INF else ['tmax-finite'])
     if flags['ended']:
         classes.append('ran-to-extinction-or-horizon')
     nt = flags['deep'] >= 2 and any(k != 'const' for k in kinds)
@@ -193,7 +204,11 @@ def model_case(draw):
     IC = [draw(st.sampled_from(names)) for _ in range(n)]
     sub = [s for s in names if draw(st.booleans())] or [names[0]]
     tmin = draw(st.sampled_from([0, 0, -1.5, 2]))
-    return {'gc': gc, 'statuses': names, 'rules': rules, 'next': nxt, 'IC': IC,
+    alt = {}
+    if ns >= 3 and draw(st.integers(0, 2)) == 0:
+        s = draw(st.sampled_from(sorted(rules)))
+        alt[s] = draw(st.sampled_from([x for x in names if x != s and x != nxt[s]]))
+    return {'alt': alt, 'gc': gc, 'statuses': names, 'rules': rules, 'next': nxt, 'IC': IC,
             'ret': list(draw(st.permutations(sub))), 'tmin': tmin,
             'tmax': draw(st.sampled_from(['inf', 'inf', tmin + 1.0, tmin + 2.25, tmin + 100])),
             'walk': draw(st.lists(st.integers(0, 7), min_size=0, max_size=10)),
@@ -216,8 +231,12 @@ def canonical_cases(quick):
         (['U', 'A'], {'U': ['pernode', 1.0, 'A', 1, 1]}, {'U': 'A', 'A': 'U'}),
         # S->E->I cascade: only the E->I step changes anybody else's rate (lazy influence function)
         (['S', 'E', 'I'], {'S': ['linear', 1.0, 'I', 1, 1], 'E': ['const', 2.0, 'I', 1, 1]}, {'S': 'E', 'E': 'I', 'I': 'S'}),
+        # infected nodes recover to R or back to S, the chooser flipping its own coin
+        (['S', 'I', 'R'], {'S': ['linear', 1.0, 'I', 1, 1], 'I': ['const', 1.0, 'I', 1, 1]}, {'S': 'I', 'I': 'R', 'R': 'S'}, {'I': 'S'}),
     ]
-    for statuses, rules, nxt in specs:
+    for spec in specs:
+        statuses, rules, nxt = spec[:3]
+        alt_ = spec[3] if len(spec) > 3 else {}
         for n in (2, 3) if quick else (2, 3, 4):
             graphs = list(gen.all_graphs(n))
             if n == 4:
@@ -231,7 +250,7 @@ def canonical_cases(quick):
                 for IC in ics:
                     for tmax in ('inf', 2.0):
                         k_form = ['list', 'iter', 'generator', 'tuple'][(len(edges) + n + len(IC[0])) % 4]
-                        yield {'lazy_influence': True, 'nodew': [5.0, 1.0, 1.0, 3.0][:n], 'infl_form': k_form, 'gc': {'nodes': list(range(n)), 'edges': edges, 'ew': None, 'nw': None},
+                        yield {'alt': alt_, 'lazy_influence': True, 'nodew': [5.0, 1.0, 1.0, 3.0][:n], 'infl_form': k_form, 'gc': {'nodes': list(range(n)), 'edges': edges, 'ew': None, 'nw': None},
                                'statuses': statuses, 'rules': rules, 'next': nxt, 'IC': IC, 'ret': statuses,
                                'tmin': 0, 'tmax': tmax, 'depth': 5 if quick else 6}
 
@@ -245,13 +264,13 @@ def replay(ctx, sub, case):
 def run(ctx):
     quick = ctx.tier == 'quick'
     ctx.rule = ('Hypothesis: 2-4 statuses, per-status rate rule (none/const/threshold/linear over 1- or 2-hop balls, rates incl. '
-                '0.1/0.2/0.3), deterministic chooser, influence set = ball of the largest hop radius (ordered list), graph n<=5, '
+                '0.1/0.2/0.3), deterministic or coin-flipping chooser, influence set = ball of the largest hop radius (ordered list), graph n<=5, '
                 'initial statuses, tmax in {inf, small}, walk <=10 events; canonical threshold / SIR-as-complex / two-hop models: '
                 'complete history trees (depth %d) on all graphs n<=3%s. Every step: exact next-node law == rate/sum (1e-9), clock == '
                 'sum, new status == chooser, stop exactly when all rates are 0 or the horizon is reached, counts track statuses. '
                 'Non-trivial: >=2 events and a neighbour-dependent rule; distinct by case digest.' % (5 if quick else 6, '' if quick else ' and a sample of n=4'))
     ctx.assumptions = ['influence set covers the dependence radius of the rate function (property precondition)',
-                       'callbacks are pure; the influence set is returned as an ordered container or one-shot iterator (list, tuple, iterator, generator, dict keys)', 'chooser never returns the current status']
+                       'rate function and influence function are pure, the chooser is deterministic or draws from the forking source (its own coin between two targets); the influence set is returned as an ordered container or one-shot iterator (list, tuple, iterator, generator, dict keys)', 'chooser never returns the current status']
     only = getattr(ctx, 'only', None)
     if not only or 'canonical' in only:
         c01.run_exhaustive(ctx, 'canonical', canonical_cases(quick), 'eonverif.props.c15', 'tree_prop')
